@@ -85,7 +85,7 @@ func planC11(tier string, seed int64) (*core.Plan, error) {
 						return
 					}
 					on := subs[r.Intn(len(subs))]
-					emit(core.Case{"kind": "iff", "toks": toks, "on": on, "stmt": stmt, "cfg": []string{"allow", "deny"}[r.Intn(2)]})
+					emit(core.Case{"kind": "iff", "toks": toks, "on": on, "stmt": stmt, "cfg": []string{"allow", "deny"}[r.Intn(2)], "ownprefix": r.Intn(4) == 0})
 				})
 			}
 			emit(core.Case{"kind": "iff", "toks": []string{"a"}, "on": []string{"a", "b", "c"}, "stmt": "leaf", "cfg": "all"})
